@@ -556,6 +556,9 @@ func (in *Interp) callValue(caller *frame, fv value, args []value, pos token.Pos
 	if c.bi != nil {
 		return in.callBuiltin(caller, c.bi, args, pos)
 	}
+	if c.native != nil {
+		return c.native(in, caller, args)
+	}
 	return in.callFn(caller, c.fn, args, c.env)
 }
 
